@@ -122,7 +122,8 @@ func (x *gen) kids(schemaKids []*sg.Node, depth int) []*D {
 				for i := 0; i < k; i++ {
 					d.Vals = append(d.Vals, values[g.Pick(len(values), "llval")]+strconv.Itoa(i))
 				}
-				if k > 0 {
+				// an entry-less node (e.g. decoded from "tag": []) counts as zero values, it does not hide a min-elements violation
+				if k > 0 || g.Chance(1, 3, "emptyll") {
 					out = append(out, d)
 				}
 			}
@@ -181,7 +182,7 @@ func (x *gen) kids(schemaKids []*sg.Node, depth int) []*D {
 						}
 					}
 				}
-				if k > 0 {
+				if k > 0 || g.Chance(1, 3, "emptylist") {
 					out = append(out, d)
 				}
 			}
